@@ -17,10 +17,11 @@ Search: property-level oracle on the real code only: `q.get_mapping(m)` vs `q.ge
 multisets, exception classes) on the pair generators, the single-pair grid and the neighbourhood of disagreeing cases.
 """
 import itertools
+import math
 import struct
 
 from .. import core, molgen
-from ..gen import gen_bitlayout, gen_c09cache, gen_periodic, gen_query
+from ..gen import gen_bitlayout, gen_c09alloc, gen_c09cache, gen_periodic, gen_query
 
 LEVEL = 'proof'
 LEVEL_TEXT = ('The claim "both matcher configurations return the same mappings" is a theorem about the executable models the driver '
@@ -33,10 +34,14 @@ LEVEL_TEXT = ('The claim "both matcher configurations return the same mappings" 
               'execution of every encoder field exhaustively and of both real paths on generated (query, molecule) pairs. Proof is the '
               'right level because the quantifier (all elements x charges x isotope offsets x counts x ring sizes, all pairs) is closed '
               'by the theorems, not sampled; the documented gaps of the layout are excluded by an explicit domain predicate, kept visible '
-              'as a false full statement with witnesses, and reported as known findings.')
+              'as a false full statement with witnesses, and reported as known findings. Memory safety of the matcher is part of the '
+              'model: every access to the five arrays get_mapping allocates is guarded by the element counts regenerated from the '
+              'PyMem_Malloc / memset expressions of the .pyx, and compiled_matcher_memory_safe proves that no guard fails on any buffer '
+              'the structure encoder can produce (stack pointer <= query atoms x molecule atoms).')
 LEVEL_NOTE = ('Lean kernel; hand-written model validated by correspondence (not a proof about the Python/Cython text); gen_bitlayout, '
               'gen_periodic, gen_query translators; the compiled extension cannot be built here: `_isomorphism.pyx` runs through the '
-              'pyx2py rendering (C integer semantics emulated), so C-level memory safety of the compiled artefact is outside; the stereo '
+              'pyx2py rendering (C integer semantics emulated; out-of-bounds accesses raise), so memory safety is proved of the model with '
+              'the regenerated allocation sizes and tied by the tracked-array stream, not of the compiled artefact itself; the stereo '
               'post-filter of QueryIsomorphism.get_mapping is code shared by both paths and is only compared, not modelled.')
 TECHNIQUE = 'Lean 4 theorems over an executable model of the bit layout and both matchers + regenerated literals + differential execution'
 HAS_DRIVER = True
@@ -48,9 +53,12 @@ RULE = ('ea: every element 1-118 x every tabulated isotope, charge -4..4, radica
         'neighbours / hybridisation / ring sizes / H / heteroatoms x 31 order sets x 3 ring marks, per field and pairwise; es/ec: corpus, '
         'handmade, ring assemblies, decorated graphs, SMARTS with every primitive, patterns cut from targets; mt: query grid x atom grid; '
         'gm: SMARTS x molecules, cut patterns (ring closures, random label flags), multi-component patterns, scopes, both '
-        'automorphism_filter settings. A case is one encoder call / one pair / one search; non-trivial when it constrains something '
+        'automorphism_filter settings; ga: hypervalent hubs, stars (3..10 leaves), cliques K3..K7, K3,3, a wheel and cages x star / '
+        'chain / ring queries without element constraints and patterns cut from the targets, rendered matcher with tracked arrays vs the '
+        'guarded model (highest stack pointer, pushes, yields; scratch array all-zero at every yield and at the end). A case is one encoder call / one pair / one search; non-trivial when it constrains something '
         '(not the default atom) resp. the search has at least one candidate root; distinct by canonical wire form.')
 TRUSTED = ['gen_bitlayout translator (AST of isomorphism.py, text of _isomorphism.pyx)', 'gen_periodic / gen_query translators',
+           'gen_c09alloc translator (PyMem_Malloc / memset size expressions of _isomorphism.pyx)',
            'pyx2py rendering of _isomorphism.pyx (C unsigned arithmetic, struct views)',
            'C07 model Iso.lean and C08 model QueryEq.lean (validated by their own checks)']
 ASSUMPTIONS = ['molecule `_bonds` is symmetric (bonds_count * 2 = number of adjacency entries)',
@@ -84,7 +92,9 @@ def generate(ctx):
     _state['layout'] = info
     pc, cinfo = gen_c09cache.generate()
     _state['cache'] = cinfo
-    return paths + [p, pc]
+    pa, ainfo = gen_c09alloc.generate()
+    _state['alloc'] = ainfo
+    return paths + [p, pc, pa]
 
 
 def install():
@@ -639,11 +649,15 @@ CAGES = ['C1C2C3CC1C23', 'C1C2C3C1C3C2', 'C1CC2CC3CC1C23', 'C1C2C1C1CC21', 'C1C2
          'C1C2CC3CC1CC(C2)C3', 'C12C3C4C1C5C2C3C45', 'C1CC2CCC1C2', 'C1CC2CCC1CC2', 'C12C3C1C1C2C31', 'C1CCC2CCCCC2C1',
          'C1CC2CC12', 'C12CC1C2', 'C1C2CC1C2', 'C1C2C1C2', 'C1CC2(C1)CC2', 'C1CC2CC1C2', 'C1C2CC3C1C3C2', 'C1CC2C3CC1C23',
          'C1C2C3C4C1C5C2C5C34', 'C1CC2C1C1CC21', 'C1C2C3C2C13', 'C1CC23CC2C13', 'N1C2C3CC1C23', 'O1C2C3CC1C23', 'CC1C2C3CC1C23',
-         'C1CC2C3CC(C1)C23', 'C1C2CC3C1CC23']
+         'C1CC2C3CC(C1)C23', 'C1C2CC3C1CC23',
+         # quadricyclane, basketane, prismane, oxa-quadricyclane, homocubane, [1.1.1]propellane, [2.2.2]propellane, twistane-like
+         'C1C2C3C2C4C1C34', 'C1CC2C3C4C1C5C2C3C45', 'C12C3C1C4C2C34', 'O1C2C3C2C4C1C34', 'C1C2C3C4C1C5C2C3C45', 'C1C23CC12C3',
+         'C1CC23CCC12CC3', 'C1C2C3C2C4C1C34C', 'N1C2C3C2C4C1C34']
 RING_QUERIES = ['[#6]1[#6][#6]1', '[#6]1[#6][#6][#6]1', '[#6]1[#6][#6][#6][#6]1', '[#6]1[#6][#6][#6][#6][#6]1',
                 '[#6]1[#6][#6][#6][#6][#6][#6]1', '[#6]1[#6][#6]([#6])[#6]1', 'CC1CCC1', 'CC1CCCC1', 'CC1CC1', 'C1CC1C', 'CC1CCCCC1',
                 'C1CCC1', 'C1CCCC1', 'C1CCCCC1', '[A]1[A][A][A]1', '[A]1[A][A][A][A]1', 'C1CC(C)CC1C', 'C1C(C)C1C', 'C(C)1CC(C)C1',
-                'C1CC2CC12', 'C1CC2CCC12', 'C1CC2CC2C1', 'C1CCC2CC2C1', '[A]1[A][A]2[A][A]12', 'C1CC1C1CC1', 'CC1(C)CC1']
+                'C1CC2CC12', 'C1CC2CCC12', 'C1CC2CC2C1', 'C1CCC2CC2C1', '[A]1[A][A]2[A][A]12', 'C1CC1C1CC1', 'CC1(C)CC1',
+                'C-,=1CCC1', 'C1CCOC1', 'C1CC2C3CC1C23', 'C1C2CC1C2', '[A]1[A][A]2[A][A]2[A]1']
 
 
 def cage_targets(ctx):
@@ -703,6 +717,81 @@ def cage_pairs(ctx):
                 continue
             tname, t = (name, m) if k % 3 else rng.choice(cages)
             yield (f'cagecut({name}) @ {tname}', q, t, rng.random() < 0.3, None)
+
+
+# worst cases for the matcher's bookkeeping arrays: hypervalent hubs and stars (many candidates per depth wait on the stack at the
+# same time), cliques (every atom is a candidate at every depth), cages; searched with star / chain / ring queries without
+# element or degree constraints and with patterns cut from the targets
+HUBS = ['FS(F)(F)(F)(F)F', 'FP(F)(F)(F)F', 'FI(F)(F)(F)(F)(F)F', 'F[Si-2](F)(F)(F)(F)F', 'CC(C)(C)C', 'CC(C)(C)C(C)(C)C', 'ClS(Cl)(Cl)(Cl)(Cl)Cl',
+        'F[P-](F)(F)(F)(F)F', 'CC(C)(C)C(C)(C)C(C)(C)C', 'FS(F)(F)(F)(F)S(F)(F)(F)(F)F', 'C[Si](C)(C)O[Si](C)(C)C', 'FB(F)F', 'F[B-](F)(F)F',
+        'O=S(=O)(O)O', 'ClC(Cl)(Cl)C(Cl)(Cl)Cl']
+STRESS_QUERIES = ['FS(F)(F)(F)F', 'FS(F)(F)(F)(F)F', '[A]([A])([A])[A]', '[A]([A])([A])([A])[A]', '[A]([A])([A])([A])([A])[A]',
+                  '[A]([A])([A])([A])([A])([A])[A]', '[A][A]([A])([A])([A])([A])[A]', '[A][A]', '[A][A][A]', '[A][A][A][A]', '[A][A][A][A][A]',
+                  '[A]1[A][A]1', '[A]1[A][A][A]1', '[A]1[A][A][A][A]1', '[A]1[A][A][A][A][A]1', '[A]1[A][A]2[A][A]12', '[A]1[A]2[A]1[A]2',
+                  '[A]12[A]3[A]1[A]23', '[A]([A])([A])[A]([A])[A]', '[A]([A])[A]([A])[A]([A])[A]', '[A]1[A][A]1[A]', '[A]', 'F[A]F', 'C[A](C)C',
+                  '[A]1[A][A]2[A][A]2[A]1', '[A]([A])([A])([A])[A]([A])([A])[A]']
+
+
+def stress_targets(ctx):
+    if 'stress' in _state:
+        return _state['stress']
+    out = []
+    for s in HUBS + ['C12C3C1C23']:
+        m = molgen.parse(s)
+        if m is not None:
+            out.append((s, m))
+    # stars: a hub with k leaves
+    for k in range(3, 11):
+        try:
+            out.append((f'star{k}', molgen.from_edges([(1, i) for i in range(2, k + 2)], elements={1: 'Fe', **{i: 'Cl' for i in range(2, k + 2)}})))
+        except Exception:
+            pass
+    # cliques K3 … K6 (carbon up to degree 4, phosphorus / sulfur above)
+    for k, el in ((3, 'C'), (4, 'C'), (5, 'C'), (6, 'P'), (7, 'S')):
+        if k == 7 and ctx.quick:
+            continue
+        try:
+            out.append((f'K{k}', molgen.from_edges([(i, j) for i in range(1, k + 1) for j in range(i + 1, k + 1)], elements={i: el for i in range(1, k + 1)})))
+        except Exception:
+            pass
+    # complete bipartite K3,3 and a wheel
+    try:
+        out.append(('K33', molgen.from_edges([(i, j) for i in (1, 2, 3) for j in (4, 5, 6)])))
+        out.append(('wheel5', molgen.from_edges([(1, i) for i in range(2, 7)] + [(i, i + 1) for i in range(2, 6)] + [(6, 2)], elements={1: 'P'})))
+    except Exception:
+        pass
+    out += [(n, m) for n, m in cage_targets(ctx) if not n.startswith('assembly') and len(m) <= 14][:48]
+    _state['stress'] = out
+    return out
+
+
+def stress_pairs(ctx):
+    rng = ctx.rng
+    targets = stress_targets(ctx)
+    qs = [(s, parse_smarts(s)) for s in STRESS_QUERIES]
+    qs = [(s, q) for s, q in qs if q is not None]
+    hubs = set(HUBS)
+    for name, m in targets:
+        worst = name in hubs or name.startswith(('star', 'K', 'wheel'))
+        for qs_, q in (qs if worst or not ctx.quick else rng.sample(qs, 8)):
+            if len(q) > len(m):
+                continue
+            if len(m) >= 7 and len(q) >= 6 and name.startswith('K'):
+                continue  # 7!/… mappings: too slow for the rendered matcher
+            hub = max(len(b) for b in m._bonds.values())
+            qhub = max(len(b) for b in q._bonds.values())
+            if math.perm(hub, min(hub, qhub)) > (3000 if ctx.quick else 200000):
+                continue  # a star query on a star target has hub!/(hub-k)! embeddings
+            scope = None
+            if rng.random() < 0.15:
+                atoms = list(m._atoms)
+                scope = sorted(rng.sample(atoms, rng.randint(1, len(atoms))))
+            yield (f'{qs_} @ {name}', q, m, False, scope)
+        for k in range(2 if ctx.quick else 6):
+            if len(m) < 3:
+                continue
+            q = cut_pattern(rng, m, rng.randint(3, min(7, len(m))), drop_cycle_bond=(k % 2 == 1), plain=True)
+            yield (f'stresscut({name}) @ {name}', q, m, False, None)
 
 
 # coordination (order 8, "special") bonds: ring perception, `in_ring`, `neighbors`, hybridisation ignore them, so a cycle closed
@@ -1154,6 +1243,137 @@ def stream_gm(ctx, pairs):
         ctx.sample({'stream': 'gm', 'request': lines[0][:400], 'model': resp[0][:300] if resp else None, 'real': str(reals[0])[:300]})
 
 
+def _tracking(mod):
+    """CArray of the rendered extension that remembers the highest index written and the number of writes"""
+    base = mod.CArray
+    made = []
+
+    class Track(base):
+        def __init__(self, t, n):
+            base.__init__(self, t, n)
+            self.hi, self.writes = -1, 0
+            made.append(self)
+
+        def __setitem__(self, i, x):
+            base.__setitem__(self, i, x)
+            if not isinstance(i, slice):
+                self.writes += 1
+                if i > self.hi:
+                    self.hi = i
+    return Track, made
+
+
+def real_ga(q, m, flags):
+    """run the rendered `get_mapping` on the real encoders' buffers with tracked arrays ->
+    [per query component: ('ok', max stack pointer, pushes, mappings) | ('oob',) | ('err', Exc)], [hygiene remarks]"""
+    import sys
+    from array import array
+    mod = sys.modules['chython.algorithms._isomorphism']
+    fresh(q)
+    try:
+        qbufs = q._cython_compiled_query
+        sbuf = m._cython_compiled_structure
+    except Exception as e:
+        fresh(q)
+        return [('err', exc_name(e))], []
+    out, remarks = [], []
+    orig = mod.CArray
+    for qbuf in qbufs:
+        Track, made = _tracking(mod)
+        mod.CArray = Track
+        n = 0
+        try:
+            for _ in mod.get_mapping(qbuf, sbuf, array('I', flags)):
+                n += 1
+                if len(made) == 5 and any(made[4].v):
+                    remarks.append('scratch array `closures` not all-zero at a yield')
+            res = None
+        except IndexError:
+            res = ('oob',)
+        except Exception as e:
+            res = ('err', exc_name(e))
+        finally:
+            mod.CArray = orig
+        if len(made) != 5:
+            out.append(('shape', len(made)))
+            continue
+        path, s_index, s_depth, matched, closures = made
+        if res is None:
+            res = ('ok', s_index.hi + 1, s_index.writes, n)
+            if any(closures.v):
+                remarks.append('scratch array `closures` not all-zero when the search ended')
+            if s_depth.hi != s_index.hi or s_depth.writes != s_index.writes:
+                remarks.append('stack_index / stack_depth written differently')
+        out.append(res)
+    fresh(q)
+    return out, remarks
+
+
+def parse_ga(resp):
+    out = []
+    for part in resp.split(' ; '):
+        ws = part.split()
+        if not ws:
+            out.append(('other', resp[:100]))
+        elif ws[0] == 'ok':
+            out.append(('ok',) + tuple(int(w) for w in ws[1:4]))
+        elif ws[0] in ('oob', 'uninit'):
+            out.append(('oob',))
+        elif ws[0] == 'err':
+            out.append(('err', ws[1]))
+        else:
+            out.append(('other', part[:100]))
+    return out
+
+
+def stream_ga(ctx, pairs):
+    """bookkeeping of the compiled matcher: model (arrays at the regenerated sizes, every access guarded) vs the rendered `.pyx`
+    with tracked arrays — highest stack pointer, number of pushes, number of yields per query component; plus the hygiene the
+    model proves (`scratch_array_is_clean`): `closures[]` is all-zero at every yield and at the end"""
+    lines, reals, names, inputs = [], [], [], []
+    for name, q, m, auto, scope in pairs:
+        if has_stereo(q):
+            continue
+        atoms = list(m._atoms)
+        flags = [1] * len(atoms) if scope is None else [int(n in scope) for n in atoms]
+        got, remarks = real_ga(q, m, flags)
+        inp = {'kind': 'pair', 'lquery': lquery_ints(q), 'lmol': lmol_ints(m), 'auto': False, 'scope': scope, 'name': name}
+        for r in sorted(set(remarks)):
+            ctx.cov['disagreements_checked'] += 1
+            if _state.setdefault('ga_remarks', 0) < 3:
+                ctx.broke('correspondence', 'ga:scratch-array', f'{name}: {r} (the model proves it clean: scratch_array_is_clean)')
+                _state.setdefault('seeds', []).append(('pair', inp))
+            _state['ga_remarks'] += 1
+        lines.append(line('ga', [0] + L(flags) + lquery_ints(q) + lmol_ints(m)))
+        reals.append(got)
+        names.append(name)
+        inputs.append(inp)
+    resp = core.run_driver('C09', lines) if ctx.build_ok else []
+    bad = 0
+    top = 0
+    for name, ln, got, rs, inp in zip(names, lines, reals, resp, inputs):
+        model = parse_ga(rs)
+        ctx.count(('ga', ln), nontrivial=any(g[0] == 'ok' and g[2] > 0 for g in got))
+        for g in got:
+            if g[0] == 'ok':
+                top = max(top, g[1])
+                ctx.dist('ga:stack:%s' % ('0' if g[1] == 0 else '1-7' if g[1] < 8 else '8-15' if g[1] < 16 else '16-31' if g[1] < 32 else '32+'))
+                n_atoms = inp['lmol'][0]
+                if g[1] > 2 * n_atoms:
+                    ctx.dist('ga:stack-above-2*atoms')
+            else:
+                ctx.dist('ga:' + g[0])
+        if model != got:
+            bad += 1
+            ctx.cov['disagreements_checked'] += 1
+            if bad <= 3:
+                ctx.broke('correspondence', 'ga:stack', f'{name}: rendered .pyx (max stack pointer, pushes, yields) {got} model {model}')
+                _state.setdefault('seeds', []).append(('pair', inp))
+    ctx.dist('ga:highest-stack-pointer:%d' % top)
+    if lines:
+        ctx.sample({'stream': 'ga', 'request': lines[0][:300], 'model': resp[0][:200] if resp else None, 'real': str(reals[0])[:200]})
+
+
 def describe(rc, rp):
     if rc[0] != rp[0]:
         return f'{rc[0]}:{rc[1] if rc[0] == "err" else "mappings"}-vs-{rp[0]}:{rp[1] if rp[0] == "err" else "mappings"}'
@@ -1448,7 +1668,17 @@ def correspond(ctx):
         pairs = pair_stream(ctx, 3000, 2400, 500)
     else:
         pairs = pair_stream(ctx, 20000, 16000, 3000)
-    stream_gm(ctx, pairs)
+    spairs = list(stress_pairs(ctx))
+    cp = []
+
+    def keep(it):
+        for x in it:
+            if '@' in x[0] and x[0].startswith(('[#6]', 'C', '[A]', 'cagecut')) and len(cp) < 100000:
+                cp.append(x)
+            yield x
+    stream_gm(ctx, itertools.chain(keep(pairs), ctx.rng.sample(spairs, min(len(spairs), 400)) if ctx.quick else spairs))
+    cp = [x for x in cp if x[2].rings_count >= 2 and x[4] is None and len(x[2]) <= 24]
+    stream_ga(ctx, spairs + (ctx.rng.sample(cp, min(len(cp), 300)) if ctx.quick else cp))
     stream_hist(ctx)
     ctx.exhaustive = False
     if _state.get('gen_query_error'):
@@ -1497,6 +1727,11 @@ def search(ctx):
         if kind == 'pair':
             q, m = ints_to_lquery(seed['lquery']), ints_to_lmol(seed['lmol'])
             found += check_pair(ctx, 'seed:' + str(seed.get('name')), q, m, seed['auto'], seed['scope'])
+    # 1b. worst cases of the bookkeeping arrays and the cage pairs (stale scratch entries only show on cages)
+    for name, q, m, auto, scope in itertools.chain(stress_pairs(ctx), cage_pairs(ctx)):
+        if time.time() - t0 > budget * 0.4 or found >= 5:
+            break
+        found += check_pair(ctx, name, q, m, auto, scope)
     # 2. single-pair grid (every query field value against matching / perturbed atoms)
     for d, ad, bond in mt_grids(ctx):
         if time.time() - t0 > budget * 0.5 or found >= 5:
